@@ -188,6 +188,8 @@ def mismatch(obs, exp):
             ov.pop("approx", None)
         if ov != exp["value"]:
             out.append(f"value {ov!r}, expected {exp['value']!r}")
+    if exp.get("accepted_never_fails") and obs.get("outcome") in ("error", "abort"):
+        out.append(f"the compiler accepted the program (no `!`, no abort) but the run ended with {obs.get('outcome')}: {obs.get('message')}")
     if exp.get("types_sound") and obs.get("type_errors"):
         out.append("type unsound: " + "; ".join(obs["type_errors"]))
     evo = ((obs.get("event") or {}).get("Object") or {})
